@@ -7,7 +7,7 @@
 
 #![allow(dead_code)]
 mod dn_sim;
-mod engine;
+use simcore::engine;
 mod keys;
 mod purity;
 mod recipe;
@@ -20,6 +20,12 @@ use engine::{Engine, Tier, WorkerArgs};
 
 fn arg(args: &[String], name: &str) -> Option<String> {
     args.iter().position(|a| a == name).and_then(|i| args.get(i + 1).cloned())
+}
+
+/// Runs in the forked child before each run: restart the deterministic getrandom stream so
+/// that a run does not depend on what the worker executed before it.
+fn child_init(run_seed: u64) {
+    sysseam::reseed(run_seed ^ 0x5eed_5eed_5eed_5eed);
 }
 
 fn dispatch<E: Engine>(cmd: &str, args: &[String]) -> i32 {
@@ -35,6 +41,8 @@ fn dispatch<E: Engine>(cmd: &str, args: &[String]) -> i32 {
                 mode: arg(args, "--mode").unwrap_or_else(|| "default".into()),
                 max_samples: arg(args, "--samples").and_then(|s| s.parse().ok()).unwrap_or(2),
                 stop_on_violation: !args.iter().any(|a| a == "--keep-going"),
+                isolate: !args.iter().any(|a| a == "--no-isolate"),
+                child_init: Some(child_init),
             };
             engine::worker::<E>(&a);
             0
@@ -48,11 +56,13 @@ fn dispatch<E: Engine>(cmd: &str, args: &[String]) -> i32 {
             println!("{}", serde_json::to_string(&serde_json::json!({"trace": E::generate(rs, i, tier, &mode)})).unwrap());
             0
         }
-        "exec" => engine::exec_file::<E>(&arg(args, "--trace").expect("--trace"), args.iter().any(|a| a == "-v")),
+        "exec" => engine::exec_file::<E>(&arg(args, "--trace").expect("--trace"), args.iter().any(|a| a == "-v"), Some(child_init)),
         "minimize" => engine::minimize_file::<E>(
             &arg(args, "--trace").expect("--trace"),
             &arg(args, "--out").expect("--out"),
             arg(args, "--budget").and_then(|s| s.parse().ok()).unwrap_or(30),
+            true,
+            Some(child_init),
         ),
         _ => {
             eprintln!("unknown command {cmd}");
